@@ -50,6 +50,8 @@ KNOWN = [
 ]
 
 FIXED = [
+ ("C02", "64b3128", "C02.R4 ESpec::parse('b:{18446744073709551615K=n}'): multiply overflow on a u64 parsed from the spec string (findings/T9)"),
+ ("C02", "51299f4", "(no rule) get_compression_at_offset: u64 overflow from ESpec numbers (findings/T9)"),
  ("C02", "fa335dc", "C02.R3 extract_pem_certificate: '-----END CERTIFICATE-----\\n-----BEGIN CERTIFICATE-----\\n' sliced with begin > end (findings/T2; found by triage of E-bounds' not-decided sites)"),
  ("C02", "0dd47bf", "C02.R2 PidTracking::from_mapped: 28 bytes requested 2 x 128 MiB (up to 2 x 16 GiB) (findings/T5; found by triage)"),
  ("C02", "6308181", "C02.R5 ESpec::parse('b:' x 200000 + 'n') overflowed the stack, SIGABRT (findings/T7; found by triage)"),
